@@ -183,30 +183,112 @@ def e_unlock(k: int) -> bool:
 
 
 def e_unlock_long(k: int) -> bool:
-    """Keys whose user KDF is blake2b (password = hash key, at most 64 bytes): the 64-byte password unlocks, every near
-    miss (one byte changed, one byte missing, one or more bytes appended, same first 64 bytes) does not.
-    pre: 0 <= k < 2 * 6
+    """Keys whose user KDF is blake2b (the password is the hash key, at most 64 bytes) created with a password of 64, 65 or
+    100 bytes: either the command refuses it with the backend untouched, or the password unlocks and every near miss (one
+    byte changed, one byte missing, bytes appended, the same first 64 bytes) does not.
+    pre: 0 <= k < 2 * 7 * 3
     post: _
     """
-    shared, wi = digits(k, [2, 6])
+    shared, wi, li = digits(k, [2, 7, 3])
     with NoTracing():
         rt.determinism(47)
         be = rt.MemBackend()
         repo = Repository(be, concurrent=1, cache_directory=None)
-        P = bytes(range(33, 97))                      # 64 bytes
+        P = bytes(33 + i % 90 for i in range([64, 65, 100][li]))
         st = rt.fast_settings(True)
         st['encryption']['kdf'] = {'name': 'blake2b'}
-        with rt.silence():
-            init = rt.MiniLoop().run_until_complete(repo.init(password=P, settings=st))
-            key = init.key
-            if shared:
-                key = rt.MiniLoop().run_until_complete(repo.add_key(password=P, shared=True, settings={'encryption': {'kdf': {'name': 'blake2b'}}})).new_key
-        wrong = [P, P[:-1] + b'?', P[:-1], P + b'x', P + b'\x00', P + bytes(40)][wi]
+        tick('e_unlock_long', [shared, wi, li])
+        try:
+            with rt.silence():
+                init = rt.MiniLoop().run_until_complete(repo.init(password=P if not shared else b'owner', settings=st if not shared else rt.fast_settings(True)))
+                key = init.key
+                before = dict(be.objs)
+                if shared:
+                    key = rt.MiniLoop().run_until_complete(repo.add_key(password=P, shared=True, settings={'encryption': {'kdf': {'name': 'blake2b'}}})).new_key
+        except Exception:
+            # refused: nothing may have been written by the refused command
+            return be.objs == ({} if not shared else before)
+        wrong = [P, P[:-1] + b'?', P[:-1], P + b'x', P + b'\x00', P + bytes(40), P[:64]][wi]
         r = Repository(be, concurrent=1, cache_directory=None)
         try:
             rt.MiniLoop().run_until_complete(r.unlock(password=wrong, key=key))
             opened = True
         except Exception:
             opened = False
-        tick('e_unlock_long', [shared, wi])
-        return opened == (wi == 0)
+        return opened == (wrong == P)
+
+
+# --------------------------------------------------------------------------- the key a command PRINTS (no key_output_path) - C06_e
+def _json_objects(text):
+    """All top-level JSON objects in a captured stdout (init prints the config and the key)."""
+    import json
+    dec, out, i = json.JSONDecoder(), [], 0
+    while True:
+        i = text.find('{', i)
+        if i < 0:
+            return out
+        try:
+            obj, end = dec.raw_decode(text, i)
+            out.append((obj, text[i:end]))
+            i = end
+        except ValueError:
+            i += 1
+
+
+def printed_key_case(op, kdf_i, wrong_i):
+    """init / add-key (shared, independent) without an output path print the key. The printed key is the key the command
+    returned (as later commands read it from a file), its private section is not readable, and it unlocks with its password
+    and with no other."""
+    import contextlib
+    import io
+    rt.determinism(59)
+    be = rt.MemBackend()
+    repo = Repository(be, concurrent=1, cache_directory=None)
+    kdf = [dict(rt.FAST_KDF), {'name': 'blake2b'}][kdf_i]
+    buf = io.StringIO()
+    st = rt.fast_settings(True)
+    st['encryption']['kdf'] = kdf
+    if op == 0:
+        with contextlib.redirect_stdout(buf):
+            res = rt.MiniLoop().run_until_complete(repo.init(password=b'right-pw', settings=st))
+        key = res.key
+    else:
+        with contextlib.redirect_stdout(io.StringIO()):
+            rt.MiniLoop().run_until_complete(repo.init(password=b'owner', settings=rt.fast_settings(True)))
+        issuer = repo if op == 1 else Repository(be, concurrent=1, cache_directory=None)      # (independent keys need no unlocked issuer)
+        with contextlib.redirect_stdout(buf):
+            res = rt.MiniLoop().run_until_complete(issuer.add_key(password=b'right-pw', shared=(op == 1), settings={'encryption': {'kdf': kdf}}))
+        key = res.new_key
+    objs = [(o, raw) for o, raw in _json_objects(buf.getvalue()) if isinstance(o, dict) and 'private' in o]
+    if len(objs) != 1:
+        return False, f'{len(objs)} key objects printed'
+    printed_raw = objs[0][1].encode()
+    canon = lambda b: repo.serialize(repo.deserialize(b))
+    if canon(printed_raw) != canon(repo.serialize(key)):
+        return False, 'the printed key is not the key the command returned'
+    if isinstance(objs[0][0]['private'], dict) and '!b' not in objs[0][0]['private']:
+        return False, 'the printed key shows its private section unencrypted'
+    pw = [b'right-pw', b'', b'wrong', b'right-pw ', b'owner'][wrong_i]
+    r = Repository(be, concurrent=1, cache_directory=None)
+    try:
+        rt.MiniLoop().run_until_complete(r.unlock(password=pw, key=printed_raw))
+        opened = True
+    except Exception:
+        opened = False
+    if opened != (pw == b'right-pw'):
+        return False, f'printed key with password {pw!r}: unlocked={opened}'
+    return True, ''
+
+
+def e_printed_key(k: int) -> bool:
+    """
+    pre: 0 <= k < 3 * 2 * 5
+    post: _
+    """
+    op, kdf_i, wi = digits(k, [3, 2, 5])
+    with NoTracing():
+        ok, msg = printed_key_case(op, kdf_i, wi)
+        tick('e_printed_key', [op, kdf_i, wi])
+        if not ok:
+            _say(['init', 'add-key --shared', 'add-key'][op], msg)
+        return ok
